@@ -120,6 +120,11 @@ def rand_value(r, depth):
     if k == 3:
         return None
     if k in (4, 5):
+        if r.randrange(12) == 0:
+            # neighbours that are == but not the same double (zeros of opposite sign), bare and nested
+            zs = [Raw(r.choice(["0", "-0", "0.0", "-0.0", "0e0", "-0e0"])) for _ in range(r.randrange(2, 6))]
+            form = r.randrange(3)
+            return [z if form == 0 else ([z] if form == 1 else [Raw("1"), ("obj", [("a", [z])])]) for z in zs]
         return [rand_value(r, depth - 1) for _ in range(r.randrange(0, 6))]
     pairs = []
     for _ in range(r.randrange(0, 6)):
